@@ -250,6 +250,6 @@ def facets():
     return [
         Facet("np", part_case(), check_np, quick=8000, thorough=120000, qshards=8),
         Facet("accessor", part_case(accessor=True), check_accessor, quick=1200, thorough=30000, qshards=6),
-        Facet("accessor_threaded", part_case(accessor=True, threaded=True), check_accessor, quick=12, thorough=300, qshards=2,
+        Facet("accessor_threaded", part_case(accessor=True, threaded=True), check_accessor, quick=32, thorough=400, qshards=4,
               doc="64-160 distinct spectra of more than 480 bins, one dask chunk each, threaded scheduler"),
     ]
